@@ -107,6 +107,15 @@ VARIANTS = {
         "env": {"RUSTFLAGS": HOOK_CFG + " -Cinstrument-coverage"},
         "bin": "debug/dmntk-verif-driver",
     },
+    # valgrind memcheck over the plain debug binary (same build as dbg): uninitialised reads and heap errors
+    # inside decNumber and around the FFI buffers that ASan's red zones do not show. ~25-40x slower than dbg.
+    "vg": {
+        "cmd": ["cargo", "build", "--offline"],
+        "env": {"RUSTFLAGS": HOOK_CFG},
+        "bin": "debug/dmntk-verif-driver",
+        "dir": "dbg",
+        "wrap": ["valgrind", "-q", "--error-exitcode=97", "--leak-check=no", "--track-origins=no", "--num-callers=24", "--suppressions=" + os.path.join(HARNESS, "valgrind.supp")],
+    },
     "tsan": {
         "cmd": ["cargo", "+nightly", "build", "--offline", "-Zbuild-std", "--target", "x86_64-unknown-linux-gnu"],
         "env": {
@@ -130,11 +139,11 @@ def build(variant, quiet=True):
     if variant in _built:
         return _built[variant]
     spec = VARIANTS[variant]
-    tdir = os.path.join(TARGET, variant)
+    tdir = os.path.join(TARGET, spec.get("dir", variant))
     os.makedirs(tdir, exist_ok=True)
     env = _env_base()
     env.update(spec["env"])
-    lock_path = os.path.join(TARGET, variant + ".lock")
+    lock_path = os.path.join(TARGET, spec.get("dir", variant) + ".lock")
     t0 = time.time()
     with open(lock_path, "w") as lock:
         fcntl.flock(lock, fcntl.LOCK_EX)
@@ -175,8 +184,9 @@ def _read_results(path):
 
 
 class _Shard(threading.Thread):
-    def __init__(self, binary, run_env, in_path, n_cases, out_path, case_timeout, tag, stack_mib=None):
+    def __init__(self, binary, run_env, in_path, n_cases, out_path, case_timeout, tag, stack_mib=None, wrap=None):
         super().__init__(daemon=True)
+        self.wrap = list(wrap or [])
         self.binary = binary
         self.run_env = run_env
         self.in_path = in_path
@@ -205,7 +215,7 @@ class _Shard(threading.Thread):
             self.launches += 1
             env = _env_base()
             env.update(self.run_env)
-            cmd = [self.binary, "--in", self.in_path, "--out", part, "--skip", str(skip)]
+            cmd = self.wrap + [self.binary, "--in", self.in_path, "--out", part, "--skip", str(skip)]
             if self.stack_mib:
                 cmd += ["--stack-mib", str(self.stack_mib)]
             with open(err_path, "wb") as ef:
@@ -241,7 +251,7 @@ class _Shard(threading.Thread):
             except OSError:
                 stderr_text = ""
             if eof and p.returncode == 0:
-                if stderr_text.strip() and ("Sanitizer" in stderr_text):
+                if stderr_text.strip() and ("Sanitizer" in stderr_text or (self.wrap and "==" in stderr_text)):
                     # sanitizer report that did not stop the process (TSan halt_on_error=0)
                     self.results.setdefault("_sanitizer", []).append(stderr_text[-20000:])
                 break
@@ -306,7 +316,7 @@ def run_cases(variant, cases, workdir, label="run", nshards=None, case_timeout=2
                 f.write(json.dumps(cases[k], ensure_ascii=True))
                 f.write("\n")
         out_path = os.path.join(d, "shard%02d.out" % s)
-        sh = _Shard(binary, run_env, in_path, len(idxs), out_path, case_timeout, "%s/%s/shard%d" % (label, variant, s), stack_mib)
+        sh = _Shard(binary, run_env, in_path, len(idxs), out_path, case_timeout, "%s/%s/shard%d" % (label, variant, s), stack_mib, wrap=spec.get("wrap"))
         shards.append(sh)
         index_maps.append(idxs)
     for sh in shards:
@@ -343,3 +353,35 @@ def run_cases(variant, cases, workdir, label="run", nshards=None, case_timeout=2
 def run_single(variant, case, workdir, label="single", case_timeout=300.0, stack_mib=None):
     rs, meta = run_cases(variant, [case], workdir, label=label, nshards=1, case_timeout=case_timeout, stack_mib=stack_mib)
     return rs[0], meta
+
+
+def memcheck_replay(rep, cases, label="memcheck", case_timeout=600.0, nshards=None):
+    """Replays `cases` on the plain debug driver under valgrind memcheck (variant `vg`). Only memcheck's own
+    reports are judged here (values were judged on dbg): every distinct report is a violation
+    `memcheck:<kind>:<first dmntk/dec frame>`. A missing valgrind or a watchdog is a NOTE, never a verdict."""
+    import re as _re
+
+    if shutil.which("valgrind") is None:
+        print("NOTE property=%s valgrind not installed, memcheck replay skipped" % rep.prop_id)
+        rep.extra["memcheck"] = "valgrind unavailable"
+        return
+    results, meta = run_cases("vg", cases, rep.workdir, label=label, case_timeout=case_timeout, nshards=nshards)
+    done = sum(1 for r in results if isinstance(r, dict) and not ("timeout" in r or "crash" in r or r.get("missing")))
+    sigs = {}
+    for text in meta["sanitizer_reports"]:
+        for block in _re.split(r"\n(?===\d+== \S)", text):
+            m = _re.search(r"==\d+== (Invalid \w+|Conditional jump|Use of uninitialised|Syscall param|Mismatched free|Invalid free|Source and destination overlap|Argument .* fishy)", block)
+            if not m:
+                continue
+            frames = _re.findall(r"(?:at|by) 0x[0-9A-F]+: (\S+)", block)
+            own = [f for f in frames if f.startswith("dec") or "dmntk" in f]
+            sig = "memcheck:%s:%s" % (m.group(1).replace(" ", "-"), (own[0] if own else (frames[0] if frames else "?"))[:80])
+            sigs.setdefault(sig, block[:3000])
+    for sig, block in sigs.items():
+        rep.violation(sig, block, {"variant": "vg", "case": cases[0] if cases else None})
+    for r in results:
+        if isinstance(r, dict) and "crash" in r and "== " in (r["crash"].get("stderr") or ""):
+            rep.violation("memcheck:process-died", r["crash"]["stderr"][-2000:], {"variant": "vg"})
+    rep.extra["memcheck"] = {"cases_replayed": len(cases), "cases_completed": done, "distinct_reports": len(sigs)}
+    if done < len(cases):
+        print("NOTE property=%s memcheck replay completed %d of %d cases" % (rep.prop_id, done, len(cases)))
